@@ -1,8 +1,11 @@
+import SignaloModel.Proofs.BridgeSimple
 import SignaloModel.Proofs.ClassifyProofs
 /-!
 # C09 — Slope and peak classifiers report sign changes of the first difference
 
-Property theorems for C09 (statements are printed by `#check`, axioms by `#print axioms`;
+Property theorems for C09 (statements are printed by `#check`, axioms by `#check @Registry.slope_spec
+#check @Registry.peak_spec
+#print axioms`;
 `bin/check C09` re-elaborates this file on every run and audits the axiom lists).
 -/
 open SignaloModel
@@ -14,3 +17,5 @@ open SignaloModel
 #print axioms Classify.slopeOf_lin
 #print axioms Classify.peaks_correct
 #print axioms Classify.peaks_value_eq_slope
+#print axioms Registry.slope_spec
+#print axioms Registry.peak_spec
